@@ -125,6 +125,11 @@ func c17Name(i int) string { return fmt.Sprintf("NAME%d", i) }
 
 // address i in one of its two net.IP forms (4-byte / 16-byte); both are the same address for net.IP.Equal
 func c17Addr(i int, form int) net.IP {
+	if i%4 == 3 {
+		// every fourth owner is what the packet handlers make of a record whose RDATA is not 4 or 16 octets long
+		// (net.IP(rr.RData)): the table treats an owner as an opaque byte string
+		return net.IP{10, 0, byte(i >> 8), byte(i + 1), 0xEE, 0xEE}
+	}
 	if form%2 == 0 {
 		return net.IP{10, 0, byte(i >> 8), byte(i + 1)}
 	}
@@ -132,6 +137,9 @@ func c17Addr(i int, form int) net.IP {
 }
 
 func c17AddrIndex(ip net.IP) int {
+	if len(ip) == 6 && ip[0] == 10 && ip[1] == 0 && ip[4] == 0xEE && ip[5] == 0xEE {
+		return int(ip[2])<<8 + int(ip[3]) - 1
+	}
 	v4 := ip.To4()
 	if v4 == nil || v4[0] != 10 || v4[1] != 0 {
 		return -1
